@@ -578,24 +578,34 @@ class SamplingMethod(DirectMethod):
             self.add_objective(stage, opti)
         if phase==2:
 
-            self.set_initial(stage, opti, stage._initial)
-            T_init = opti.debug.value(self.T, opti.initial())
-            t0_init = opti.debug.value(self.t0, opti.initial())
-
-            initial = HashOrderedDict()
-            # How to get initial value -> ask opti?
-            control_grid_init = self.time_grid(t0_init, T_init, self.N)
-            if self.time_grid.localize_t0:
-                for k in range(1, self.N):
-                    initial[self.t0_local[k]] = control_grid_init[k]
-                initial[self.t0_local[self.N]] = control_grid_init[self.N]
-            if self.time_grid.localize_T:
-                for k in range(not isinstance(self.time_grid, FreeGrid), self.N):
-                    initial[self.T_local[k]] = control_grid_init[k+1]-control_grid_init[k]
-
-            self.set_initial(stage, opti, initial)
-            self.set_initial(stage, opti, stage._initial) # Redo this: ocp.t is correct only now
+            self.set_initial(stage, opti, stage._initial, follow_time_grid=False)
+            self.follow_time_grid(stage, opti, stage._initial)
+            self.set_initial(stage, opti, stage._initial, follow_time_grid=False) # Redo this: ocp.t is correct only now
             self.set_parameter(stage, opti)
+
+    def initial_depends_on_parameters(self, initial):
+        # A localized time grid starts from the grid implied by t0 and T, which may be parameters
+        return self.time_grid.localize_t0 or self.time_grid.localize_T or DirectMethod.initial_depends_on_parameters(self, initial)
+
+    def follow_time_grid(self, stage, master, initial):
+        # Helper variables of a localized time grid start from the grid implied by the guessed t0 and T;
+        # guesses that depend on time are only correct once those are in place
+        if not (self.time_grid.localize_t0 or self.time_grid.localize_T): return
+        opti = master.opti if hasattr(master, 'opti') else master
+        T_init = opti.debug.value(self.T, opti.initial())
+        t0_init = opti.debug.value(self.t0, opti.initial())
+
+        grid_initial = HashOrderedDict()
+        control_grid_init = self.time_grid(t0_init, T_init, self.N)
+        if self.time_grid.localize_t0:
+            for k in range(1, self.N):
+                grid_initial[self.t0_local[k]] = control_grid_init[k]
+            grid_initial[self.t0_local[self.N]] = control_grid_init[self.N]
+        if self.time_grid.localize_T:
+            for k in range(not isinstance(self.time_grid, FreeGrid), self.N):
+                grid_initial[self.T_local[k]] = control_grid_init[k+1]-control_grid_init[k]
+        self.set_initial(stage, master, grid_initial, follow_time_grid=False)
+        self.set_initial(stage, master, initial, follow_time_grid=False)
 
 
     def add_constraints_before(self, stage, opti):
@@ -941,9 +951,10 @@ class SamplingMethod(DirectMethod):
         for var in reversed([v for v in initial.keys() if any(is_equal(v, h) for h in horizon)]):
             initial.move_to_end(var, last=False)
 
-    def set_initial(self, stage, master, initial):
+    def set_initial(self, stage, master, initial, follow_time_grid=True):
         opti = master.opti if hasattr(master, 'opti') else master
         opti.cache_advanced()
+        initial_arg = initial
         initial = HashOrderedDict(initial)
         self.horizon_guesses_first(stage, initial)
         algs = get_ranges_dict(stage.algebraics)
@@ -1011,6 +1022,7 @@ class SamplingMethod(DirectMethod):
                 if target.numel()*(self.N)==value.numel() or target.numel()*(self.N+1)==value.numel():
                     value_k = value[:,k]
                 opti.set_value(target, value_k)
+        if follow_time_grid: self.follow_time_grid(stage, master, initial_arg)
 
     def set_value(self, stage, master, parameter, value):
         opti = master.opti if hasattr(master, 'opti') else master
